@@ -64,7 +64,7 @@ pub enum Emitted {
 
 #[derive(Debug)]
 pub enum Tx {
-    Ok { msgs: Vec<Emitted>, attrs: Vec<(String, String)> },
+    Ok { msgs: Vec<Emitted>, attrs: Vec<(String, String)>, hooks: Vec<Option<(u64, ReplyOn)>> },
     /// the entry point returned a typed error
     Err(String),
     /// the entry point (or `reply`) panicked
@@ -487,10 +487,12 @@ impl Chain {
             Ok(Ok(resp)) => {
                 let attrs = resp.attributes.iter().map(|a| (a.key.clone(), a.value.clone())).collect();
                 let mut msgs = vec![];
+                let mut hooks = vec![];
                 let mut fault_idx = 0;
                 let mut failed = None;
                 for sm in &resp.messages {
                     let sub = if sm.reply_on == ReplyOn::Never { None } else { Some((sm.id, sm.reply_on.clone())) };
+                    hooks.push(sub.clone());
                     match self.decode(&sm.msg, sub) {
                         Err(e) => {
                             failed = Some(format!("undecodable message: {e}"));
@@ -515,7 +517,7 @@ impl Chain {
                             Tx::Reject(e)
                         }
                     }
-                    None => Tx::Ok { msgs, attrs },
+                    None => Tx::Ok { msgs, attrs, hooks },
                 }
             }
         };
@@ -584,7 +586,7 @@ impl Chain {
             }
             Ok(Ok(resp)) => {
                 if resp.messages.is_empty() {
-                    Tx::Ok { msgs: vec![], attrs: resp.attributes.iter().map(|a| (a.key.clone(), a.value.clone())).collect() }
+                    Tx::Ok { msgs: vec![], attrs: resp.attributes.iter().map(|a| (a.key.clone(), a.value.clone())).collect(), hooks: vec![] }
                 } else {
                     restore(&mut self.deps.storage, &snap);
                     Tx::Reject("sudo emitted messages (unmodelled)".into())
